@@ -87,3 +87,13 @@ func (g *GoBackNConn) VerifSnapshot() (n, s, base, top, recvSeq uint8) {
 
 	return g.cfg.n, q.cfg.s, base, top, g.recvSeq
 }
+
+// VerifStopPongTicker stops the pong ticker of a closed connection. The
+// harness calls it only after it has observed (and recorded) that Close left
+// the ticker's goroutine running, so that the test bubble can drain.
+func (g *GoBackNConn) VerifStopPongTicker() {
+	defer func() { _ = recover() }()
+	if g.pongTicker != nil {
+		g.pongTicker.Stop()
+	}
+}
